@@ -11,7 +11,11 @@ Inductive prog :=
 | Acq (l : nat) (m : mode)
 | Rel (l : nat) (m : mode)
 | Block                      (* may wait for another goroutine / the environment *)
-| Call                       (* opaque call assumed to return (callback, interface method, assumed-live channel send) *)
+| Call                       (* opaque call assumed to return (callback, interface method of an untranslated package) *)
+| Guarded                    (* a select with a default arm, or with a quit arm (receive from a channel that the party able to
+                                end the wait closes BEFORE it asks for any lock): it may wait for a peer, but it is always
+                                released - by the peer or by the quit signal - so it is a step, not a Block.  Plain channel
+                                sends/receives, range over a channel, Wait() and selects without such an arm are Block. *)
 | Seq (a b : prog)
 | Alt (a b : prog)
 | Loop (a : prog)
@@ -28,6 +32,7 @@ Definition pendingb (t : thread) (l : nat) : bool :=
 Inductive tstep (cfg : config) : thread -> thread -> list thread -> Prop :=
 | s_skip : forall h k a, tstep cfg (mkT h (Skip :: k) a) (mkT h k a) []
 | s_call : forall h k a, tstep cfg (mkT h (Call :: k) a) (mkT h k a) []
+| s_guarded : forall h k a, tstep cfg (mkT h (Guarded :: k) a) (mkT h k a) []
 | s_seq : forall h p q k a, tstep cfg (mkT h (Seq p q :: k) a) (mkT h (p :: q :: k) a) []
 | s_alt_l : forall h p q k a, tstep cfg (mkT h (Alt p q :: k) a) (mkT h (p :: k) a) []
 | s_alt_r : forall h p q k a, tstep cfg (mkT h (Alt p q :: k) a) (mkT h (q :: k) a) []
@@ -68,6 +73,7 @@ Definition env_parked (c : config) : Prop :=
 Inductive typed (M : nat) : held_t -> prog -> held_t -> Prop :=
 | T_skip : forall h, typed M h Skip h
 | T_call : forall h, typed M h Call h
+| T_guarded : forall h, typed M h Guarded h
 | T_acq : forall h l m, l < M -> (forall x, In x h -> fst x < l) -> typed M h (Acq l m) ((l, m) :: h)
       (* never a lock already held (any mode), nested acquisitions strictly ascending in the fixed order *)
 | T_rel : forall h l m, In (l, m) h -> typed M h (Rel l m) (remove_one (l, m) h)
@@ -82,7 +88,7 @@ Definition safe (M : nat) (p : prog) : Prop := typed M [] p [].
 (* ---- boolean checker ---- *)
 Fixpoint exec (M : nat) (h : held_t) (p : prog) : option held_t :=
   match p with
-  | Skip | Call => Some h
+  | Skip | Call | Guarded => Some h
   | Acq l m => if (l <? M) && forallb (fun x => fst x <? l) h then Some ((l, m) :: h) else None
   | Rel l m => if holds_modeb h l m then Some (remove_one (l, m) h) else None
   | Block => match h with [] => Some [] | _ => None end
@@ -107,6 +113,7 @@ Proof.
     intros x Hx. rewrite forallb_forall in E2. apply Nat.ltb_lt. auto.
   - destruct (holds_modeb h l m) eqn:E; [|discriminate]. inversion H; subst. constructor. apply holds_modeb_In. auto.
   - destruct h; [|discriminate]. inversion H; subst. constructor.
+  - inversion H; subst. constructor.
   - inversion H; subst. constructor.
   - destruct (exec M h p1) eqn:E1; [|discriminate]. econstructor; eauto.
   - destruct (exec M h p1) eqn:E1; [|discriminate]. destruct (exec M h p2) eqn:E2; [|discriminate].
